@@ -147,16 +147,41 @@ def callee_of(t):
 
 
 _GENERIC = re.compile(r"::<(?!impl )[^<>]*(?:<[^<>]*(?:<[^<>]*>[^<>]*)*>[^<>]*)*>")
+_LIFETIME_ARGS = re.compile(r"<(?:'[A-Za-z_][A-Za-z0-9_]*(?:, ?)?)+>")
+_ALIAS = {}
+_ALIAS_RX = None
+_SG_CACHE = {}
+
+
+def set_alias(amap):
+    """Install the function aliases found by canon.py: {key in this tree: key in the reference tree}.
+    Every path that goes through strip_generics (body keys, callee paths, closure definitions) is then
+    expressed in the reference vocabulary; closures and nested items follow their parent."""
+    global _ALIAS, _ALIAS_RX
+    _ALIAS = dict(amap)
+    _SG_CACHE.clear()
+    _ALIAS_RX = re.compile(r"^(%s)(?=::|$)" % "|".join(sorted(map(re.escape, _ALIAS), key=len, reverse=True))) if _ALIAS else None
 
 
 def strip_generics(path):
-    """`std::vec::Vec::<T>::push` -> `std::vec::Vec::push` (best effort, nested up to 3)."""
+    """`std::vec::Vec::<T>::push` -> `std::vec::Vec::push` (best effort, nested up to 3); lifetime-only
+    argument lists (`Meta<'a>` / `Meta<'_>`) are dropped; function aliases (set_alias) are applied."""
     if path is None:
         return None
+    r = _SG_CACHE.get(path)
+    if r is not None:
+        return r
+    p0 = path
     prev = None
     while prev != path:
         prev = path
         path = _GENERIC.sub("", path)
+    path = _LIFETIME_ARGS.sub("", path)
+    if _ALIAS_RX is not None:
+        m = _ALIAS_RX.match(path)
+        if m:
+            path = _ALIAS[m.group(1)] + path[m.end():]
+    _SG_CACHE[p0] = path
     return path
 
 
@@ -186,13 +211,18 @@ def _canon_bin(x, local_roots):
 
 
 class Program:
-    def __init__(self, facts_dir):
+    def __init__(self, facts_dir, canon=None):
         self.facts_dir = facts_dir
         self.units = {}
         self.bodies = {}
         self.adts = {}
         self.fns = {}
         self.meta = {}
+        self.canon_notes = []
+        set_alias({})
+        if canon is None:
+            canon = os.environ.get("VERIF_NO_CANON", "") != "1"
+        raw = {}
         for f in sorted(glob.glob(os.path.join(facts_dir, "facts.redo.*.json"))):
             d = json.load(open(f))
             unit = "bin" if "Executable" in d["crate_type"] else "lib"
@@ -204,6 +234,11 @@ class Program:
                     roots.add(fn["name"].split("::")[0].lstrip("<"))
                 roots = {r for r in roots if re.fullmatch(r"[A-Za-z_][A-Za-z0-9_]*", r)}
                 d = _canon_bin(d, roots)
+            raw[unit] = d
+        if canon and "lib" in raw and "bin" in raw:
+            import canon as _canon
+            _, self.canon_notes = _canon.canonicalise(raw)
+        for unit, d in raw.items():
             self.units[unit] = d
             self.meta[unit] = {"features": d["features"], "nonce": d["nonce"],
                                "missing_built": d["missing_built"], "bodies": len(d["bodies"])}
